@@ -201,13 +201,9 @@ open Gen.TargetEmit.Ts
 def representable (i : Int) : Option Bool :=
   let n := i.natAbs
   if n = 0 then some true
-  else if n.log2 ≥ 1024 then none
-  else
-    -- strip trailing zero bits: representable iff the odd part fits in 53 bits
-    let tz := (List.range 1024).find? (fun k => n.testBit k)
-    match tz with
-    | some k => some (decide ((n >>> k) < 2 ^ 53))
-    | none => some true
+  else if 1024 ≤ n.log2 then none
+  else if n.log2 < 53 then some true
+  else some (n % 2 ^ (n.log2 - 52) == 0)  -- only the 53 leading bits are set
 
 def transpileConst (c : Const) : Res TExpr :=
   match c with
